@@ -418,3 +418,14 @@ Definition all_replies (h : hres) (l : later) : list reply :=
 
 Definition invocations (h : hres) : list invocation :=
   match h with HRaise _ => [] | HDone _ invs _ => invs end.
+
+(* A handler serving several calls one after the other.  handleMethodCallMessage
+   neither changes self.exports nor keeps anything a later call can observe:
+   what the library memoises between calls (_dbusIfaceCache on the class,
+   _dbusCaller on the function) is a function of the class.  Each call comes
+   with the behaviour of the user code at that moment. *)
+Fixpoint handle_all (ex : exports) (cs : list (call * (invocation -> outcome))) : list hres :=
+  match cs with
+  | [] => []
+  | (c, beh) :: r => handle ex beh c :: handle_all ex r
+  end.
